@@ -583,6 +583,47 @@ func classifyConsumeLoop(h *ssa.BasicBlock, body map[*ssa.BasicBlock]bool, input
 		if cmp == nil || cmp.X != ssa.Value(phi) {
 			continue
 		}
+		// progress: a decoder count is used only where the decoder produced output (a decoder that
+		// produced something consumed something); an ignored nDst can mean nSrc == 0, and a parser that
+		// answers 'complete' without consuming makes the collect loop spin
+		producedFor := func(vals []ssa.Value) bool {
+			var srcs []ssa.Value
+			var collect func(v ssa.Value)
+			collect = func(v ssa.Value) {
+				switch x := v.(type) {
+				case *ssa.Extract:
+					srcs = append(srcs, x.Tuple)
+				case *ssa.Phi:
+					for _, e := range x.Edges {
+						collect(e)
+					}
+				}
+			}
+			for _, e := range vals {
+				collect(e)
+			}
+			produced := len(srcs) > 0
+			for _, src := range srcs {
+				okSrc := false
+				for _, g := range rawGuardsAt(h) {
+					bo, ok := g.Cond.(*ssa.BinOp)
+					if !ok {
+						continue
+					}
+					ex, ok := bo.X.(*ssa.Extract)
+					if !ok || ex.Index != 0 || ex.Tuple != src {
+						continue
+					}
+					if k, ok := constInt(bo.Y); ok && k == 0 && ((bo.Op == token.NEQ && g.Positive) || (bo.Op == token.EQL && !g.Positive) || (bo.Op == token.GTR && g.Positive)) {
+						okSrc = true
+					}
+				}
+				if !okSrc {
+					produced = false
+				}
+			}
+			return produced
+		}
 		switch sb.Op {
 		case token.SUB:
 			if z, ok := constInt(cmp.Y); ok {
@@ -596,44 +637,7 @@ func classifyConsumeLoop(h *ssa.BasicBlock, body map[*ssa.BasicBlock]bool, input
 				if cmp.Op == token.GTR && z == 0 {
 					// runs init times: init must be Transform's nSrc
 					if isTransformNSrc(init, 0) {
-						// progress: the count is used only where the decoder produced output (a decoder that
-						// produced something consumed something); an ignored nDst can mean nSrc == 0, and a
-						// parser that answers 'complete' without consuming makes the collect loop spin
-						var srcs []ssa.Value
-						var collect func(v ssa.Value)
-						collect = func(v ssa.Value) {
-							switch x := v.(type) {
-							case *ssa.Extract:
-								srcs = append(srcs, x.Tuple)
-							case *ssa.Phi:
-								for _, e := range x.Edges {
-									collect(e)
-								}
-							}
-						}
-						for _, e := range inits {
-							collect(e)
-						}
-						produced := len(srcs) > 0
-						for _, src := range srcs {
-							okSrc := false
-							for _, g := range rawGuardsAt(h) {
-								bo, ok := g.Cond.(*ssa.BinOp)
-								if !ok {
-									continue
-								}
-								ex, ok := bo.X.(*ssa.Extract)
-								if !ok || ex.Index != 0 || ex.Tuple != src {
-									continue
-								}
-								if k, ok := constInt(bo.Y); ok && k == 0 && ((bo.Op == token.NEQ && g.Positive) || (bo.Op == token.EQL && !g.Positive) || (bo.Op == token.GTR && g.Positive)) {
-									okSrc = true
-								}
-							}
-							if !okSrc {
-								produced = false
-							}
-						}
+						produced := producedFor(inits)
 						if !produced {
 							return "", "the decoder's consumed count is used without checking that it produced output (the count may be zero: 'complete' without progress)"
 						}
@@ -654,6 +658,13 @@ func classifyConsumeLoop(h *ssa.BasicBlock, body map[*ssa.BasicBlock]bool, input
 				}
 			}
 		case token.ADD:
+			// for i := 0; i < nSrc; i++: as many reads as the decoder reports consumed
+			if z, ok := constInt(init); ok && z == 0 && cmp.Op == token.LSS && isTransformNSrc(cmp.Y, 0) {
+				if !producedFor([]ssa.Value{cmp.Y}) {
+					return "", "the decoder's consumed count is used without checking that it produced output (the count may be zero: 'complete' without progress)"
+				}
+				return "decoder", "reads as many bytes as the decoder reports consumed (counting up to nSrc), where it produced output"
+			}
 			if z, ok := constInt(init); ok && z == 0 && cmp.Op == token.LSS {
 				if call, ok := cmp.Y.(*ssa.Call); ok {
 					if bi, ok := call.Call.Value.(*ssa.Builtin); ok && bi.Name() == "len" {
@@ -1199,6 +1210,29 @@ func checkConsumedDelivers(c *Ctx, p *Prog, rule string, only func(name string) 
 						continue
 					}
 				}
+			}
+			// the two tests joined in one condition (`substituted := r == U+FFFD && !genuine(...)`;
+			// `if !substituted { deliver }`): the edge on which both hold is the excuse
+			joined := false
+			for idx := 0; idx < 2; idx++ {
+				isSub, notGenuine := false, false
+				for _, g := range expandCond(iff.Cond, idx == 0, 0) {
+					if bo, isBO := g.Cond.(*ssa.BinOp); isBO {
+						if k, isK := constInt(bo.Y); isK && k == 0xFFFD && ((bo.Op == token.EQL && g.Positive) || (bo.Op == token.NEQ && !g.Positive)) {
+							isSub = true
+						}
+					}
+					if !g.Positive && derivesFromBytesEqual(p, g.Cond, 4) {
+						notGenuine = true
+					}
+				}
+				if isSub && notGenuine {
+					excused[edge{b, idx}] = true
+					joined = true
+				}
+			}
+			if joined {
+				continue
 			}
 			if !derivesFromBytesEqual(p, iff.Cond, 4) {
 				continue
